@@ -319,7 +319,7 @@ def c05_shapes(pfx=5):
     return q, t
 
 
-PROPS["C05"] = {"jobs": lambda: seq_jobs(*c05_shapes(5)), "assumptions": COMMON_ASSUME + [
+PROPS["C05"] = {"jobs": lambda: (lambda q, t: seq_jobs(q + seq_family(5, 2), t + seq_family(5, 3)))(*c05_shapes(5)), "assumptions": COMMON_ASSUME + [
     "sequence shape (frame count, segment kind, endpoint pattern, declared and trailing byte counts, counter offsets) is concrete; ids, start counters and contents are symbolic",
     "schedule quantifier: the shapes are the interleavings of up to 4 frames over 2 endpoints listed in the evidence; the lift to all interleavings uses C18's isolation step (DESIGN.md section 2)",
     "expected deliveries come from an independent reference reassembler in harness/seq.cpp"],
@@ -394,11 +394,41 @@ def c18_shapes():
 
 
 SEQ_ASSUME = COMMON_ASSUME + [
-    "sequence shape (frame count, segment kind, endpoint pattern, declared/trailing byte counts, counter offsets, which frame is corrupted/duplicated) is concrete; start counters and contents are symbolic; endpoint ids are concrete representatives (distinct device / same device other stream / same stream other device)",
+    "sequence shape (frame count, segment kind, endpoint pattern, declared/trailing byte counts, counter offsets, which frame is corrupted/duplicated) is concrete: hand-picked sequences plus a systematic family (an open message followed by every sequence of 2 (quick) / 3 (thorough) frames over a 14-frame alphabet of own-endpoint and foreign frames: continuation, last, unsegmented, other message type, invalid, new first, stale, skipping, other version, foreign first/unsegmented/invalid/last/TECMP); start counters and contents are symbolic; endpoint ids are concrete representatives (distinct device / same device other stream / same stream other device)",
     "Decoder's std::unordered_map is replaced by the fixed-capacity association-array model rt/stubinc/unordered_map (operator[] default-inserts, erase removes at most one entry): the real libstdc++ hashtable makes two-frame queries run out of memory (measured)",
     "TECMP::Decoder::Decode is cut in these harnesses: it is a static function of (data,size) and cannot reach a Decoder's pending table",
 ]
 PROPS["C05"]["assumptions"] = SEQ_ASSUME + ["the lift from the listed interleavings (<= 4 frames, 2 endpoints) to all interleavings uses C18's isolation step and induction over the history (DESIGN.md section 2)"]
+def seq_family(pfx, extra_len=2, samedev=1):
+    """Systematic family: an open message on endpoint 0 (first segment), followed by every sequence of `extra_len` frames over
+    an alphabet of own-endpoint and foreign-endpoint frames. Counters run consecutively per endpoint unless the frame is a
+    deliberately stale / skipping one."""
+    import itertools
+    # (seg, ep, kwargs, counter mode: 'next' | 'stale' | 'skip')
+    alpha = [
+        (2, 0, {}, "next"), (3, 0, {}, "next"), (0, 0, {}, "next"), (0, 0, {"tx": 1}, "next"), (0, 0, {"bad": 1}, "next"), (1, 0, {"ln": 3}, "next"),
+        (3, 0, {}, "stale"), (3, 0, {}, "skip"), (3, 0, {"vx": 1}, "next"),
+        (1, 1, {}, "next"), (0, 1, {}, "next"), (0, 1, {"bad": 2}, "next"), (3, 1, {}, "next"), (0, 1, {"kind": 1}, "next"),
+    ]
+    shapes = []
+    for combo in itertools.product(alpha, repeat=extra_len):
+        frames = [fr(1, ep=0, cnt=0)]
+        nxt = {0: 1, 1: 0}
+        for (seg, ep, kw, mode) in combo:
+            if mode == "next":
+                c = nxt[ep]
+            elif mode == "stale":
+                c = 1          # the counter right after the very first segment, whatever came in between
+            else:
+                c = nxt[ep] + 1
+            nxt[ep] = max(nxt[ep], c) + 1 if mode != "stale" else nxt[ep]
+            frames.append(fr(seg, ep=ep, cnt=c, **kw))
+        d = seq_shape2(frames, pfx, samedev=samedev)
+        d.update({"START0": 65534, "START1": 65535})
+        shapes.append(d)
+    return shapes
+
+
 def c06_jobs():
     q, t = c06_shapes()
     q2, t2 = [], []
@@ -410,17 +440,17 @@ def c06_jobs():
     for d in t:
         t2.append(dict(d, START0=65534, START1=65535))
         t2.append(dict(d, START0=65533, START1=0))
-    return seq_jobs(q2, t2)
+    return seq_jobs(q2 + seq_family(6, 2), t2 + seq_family(6, 3))
 
 
 PROPS["C06"] = {"jobs": c06_jobs, "assumptions": SEQ_ASSUME + [
     "start counters are concrete representatives in the fault shapes (65534/65535 so that the wrap falls inside the message, 0, 65533); symbolic-start variants run in the thorough tier", "fault quantifier: the listed fault sequences (drop, duplicate, swap, corrupt version/type, at the listed positions) are enumerated as shapes; the oracle is the property itself: every delivered packet equals one sent message (sent messages are computed from the shape), and a clean uninterrupted run is delivered"],
     "level": "bounded symbolic model checking of faulted frame sequences through the real Decoder (fault positions enumerated, contents and counters symbolic)"}
-PROPS["C17"] = {"jobs": lambda: seq_jobs(*c17_shapes()), "assumptions": SEQ_ASSUME + [
+PROPS["C17"] = {"jobs": lambda: (lambda q, t: seq_jobs(q + seq_family(17, 2), t + seq_family(17, 3)))(*c17_shapes()), "assumptions": SEQ_ASSUME + [
     "pending table observed through the ASAM_CMP_VERIF friend hook; the model map's operator[] default-inserts like the real one, so an entry leaked by a lookup is visible",
     "history quantifier: every listed sequence starts from an empty table; together with C18 (other entries untouched) the per-endpoint step covers any history by induction"],
     "level": "bounded symbolic model checking of the pending-table contents after every decode call of a frame sequence"}
-PROPS["C18"] = {"jobs": lambda: seq_jobs(*c18_shapes()), "assumptions": SEQ_ASSUME + [
+PROPS["C18"] = {"jobs": lambda: (lambda q, t: seq_jobs(q + seq_family(18, 2), t + seq_family(18, 3)))(*c18_shapes()), "assumptions": SEQ_ASSUME + [
     "isolation is checked as: the deliveries and pending entry of endpoint A are exactly those of the reference reassembler that sees only A's frames, whatever foreign frame (valid, invalid, orphan, TECMP-routed, undersized) is interleaved"],
     "level": "bounded symbolic model checking of interleaved two-endpoint sequences against a per-endpoint reference"}
 
@@ -461,11 +491,11 @@ def c16_op(kind, d=0, i=0):
     return {"cm": 0, "if": 1, "data": 2, "rmdev": 3, "rmif": 4, "clear": 5, "vstat": 6}[kind] * 16 + d * 4 + i
 
 
-def c16_seq(ops):
-    d = {"NOPS": len(ops)}
-    for k, o in enumerate(ops):
-        d["OP%d" % k] = o
-    return d
+def c16_seq(seqs):
+    flat = []
+    for ops in seqs:
+        flat += list(ops) + [0] * (8 - len(ops))
+    return {"VP_CDEF_NSEQ": len(seqs), "VP_CDEF_LENS": ",".join(str(len(o)) for o in seqs), "VP_CDEF_OPS": ",".join(str(o) for o in flat)}
 
 
 def c16_jobs():
@@ -485,6 +515,15 @@ def c16_jobs():
         [o("cm", 0), o("if", 0, 0), o("rmdev", 0), o("cm", 0), o("vstat", 0), o("if", 0, 1)],         # removed device comes back without its interfaces
         [o("cm", 1), o("cm", 1), o("if", 1, 0), o("if", 1, 0), o("cm", 1), o("data", 1)],             # latest wins
     ]
+    # systematic quick family: two known devices, then every sequence of 3 operations over a 6-operation alphabet that
+    # contains at least one removal / clear
+    fam = [o("cm", 0), o("if", 0, 0), o("data", 0, 1), o("rmdev", 0), o("rmdev", 1), o("clear")]
+    removing = {o("rmdev", 0), o("rmdev", 1), o("clear")}
+    for combo in itertools.product(fam, repeat=3):
+        if removing & set(combo):
+            quick.append([o("cm", 0), o("cm", 1)] + list(combo))
+    quick.append([o("cm", 0), o("data", 0, 1), o("data", 0, 2), o("if", 0, 0), o("data", 0, 2)])
+    quick.append([o("cm", 1), o("if", 1, 1), o("data", 1, 1), o("cm", 1), o("data", 1, 2), o("data", 1, 0)])
     alphabet = [o("cm", d) for d in (0, 1)] + [o("if", d, i) for d in (0, 1) for i in (0, 1)] + [o("data", 0), o("rmdev", 0), o("rmdev", 1), o("rmif", 0, 0), o("rmif", 0, 1), o("clear")]
     thorough = [list(p) for n in (1, 2) for p in itertools.product(alphabet, repeat=n)]
     rnd = random.Random(int(os.environ.get("VERIF_SEED", "0") or 0))
@@ -493,18 +532,24 @@ def c16_jobs():
         thorough.append([rnd.choice(full) for _ in range(rnd.choice((4, 5, 6)))])
     jobs, seen = [], set()
     for tier, seqs in (("quick", quick), ("thorough", thorough)):
+        todo = []
         for ops in seqs:
             if tuple(ops) in seen:
                 continue
             seen.add(tuple(ops))
-            jobs.append(Job("c16.cpp", "h_status", defs=c16_seq(ops), unwind=40, in_max=24 * len(ops) + 8, mem_gb=3, tier=tier,
+            todo.append(ops)
+        for i in range(0, len(todo), 1):
+            chunk = todo[i:i + 1]
+            jobs.append(Job("c16.cpp", "h_status", cdefs=c16_seq(chunk), unwind=60, in_max=60 * max(len(o) for o in chunk) + 8, mem_gb=4, tier=tier,
                             sym="payload contents of every packet (the tracker never branches on them); ids and identity tags are concrete",
-                            outside="more than 3 devices / 3 interfaces per device, sequences longer than 6 operations; ids are concrete representatives (10, 0xFFFF, 0 / 7, 0xFFFFFFFF, 0)"))
+                            outside="more than 3 devices / 3 interfaces per device, sequences longer than 6 operations; ids are concrete representatives (10, 0xFFFF, 0 / 7, 0xFFFFFFFF, 0); "
+                                    "one operation sequence per query",
+                            note="%d sequences: %s" % (len(chunk), "; ".join(",".join(str(x) for x in o) for o in chunk[:3]))))
     return jobs
 
 
 PROPS["C16"] = {"jobs": c16_jobs, "assumptions": COMMON_ASSUME + [
-    "operation sequences are concrete shapes: hand-picked sequences (quick), all sequences of length <= 2 over a 13-operation alphabet plus 120 VERIF_SEED-chosen sequences of length 4-6 (thorough); packet contents are symbolic",
+    "operation sequences are concrete shapes: hand-picked sequences plus, after two known devices, every sequence of 3 operations over a 6-operation alphabet containing a removal or clear (quick), all sequences of length <= 2 over a 13-operation alphabet plus 120 VERIF_SEED-chosen sequences of length 4-6 (thorough); packet contents are symbolic",
     "the oracle is a ghost map kept by the harness (device -> latest tag, interface -> latest tag), compared as a map (entry order is not part of the property)"],
     "level": "bounded symbolic model checking of operation sequences on the real Status object against a ghost map"}
 
